@@ -95,6 +95,13 @@ static void asprec_case(const Pattern &p) { hx::run_case("as_preconditioner/"+p.
       std::vector<scalar> y(n); for (int i=0;i<n;++i) { scalar s=in.f[i]; for (int j=0;j<i;++j) s-=A[i][j]*y[j]; y[i]=s/A[i][i]; } std::vector<scalar> x(n); for (int i=n-1;i>=0;--i) { scalar s=in.f[i]; for (int j=0;j<i;++j) s-=A[i][j]*y[j]; for (int j=i+1;j<n;++j) s-=A[i][j]*x[j]; x[i]=s/A[i][i]; }
       bool ok=true; for (int i=0;i<n;++i) ok=ok&&hx::independent_of(X[i],"junk_"); hx::require("as_preconditioner<gauss_seidel>: old output ignored",ok); hx::prove_eq_vec("as_preconditioner<gauss_seidel>: forward then backward sweep from zero",hx::to_vec(X),x); } }); }
 
+// ILU(0) with non-commuting 2x2 block values on block tridiagonal matrices: the factorisation is exact, so apply(f) solves A x = f
+static void ilu0_block_case(int n) { hx::CaseOptions co; co.max_paths=40; co.max_depth=140; hx::run_case("ilu0/block2/tridiag"+std::to_string(n), [&]() { typedef amgcl::static_matrix<scalar,2,2> B2; typedef amgcl::static_matrix<scalar,2,1> V2; typedef be::builtin<B2> BB; Pattern p=hx::band_pattern(n,1);
+    hx::Crs<B2> A; A.n=A.m=n; A.ptr=p.ptr; A.col=p.col; for (int i=0;i<n;++i) for (ptrdiff_t k=p.ptr[i];k<p.ptr[i+1];++k) { B2 b; int j=p.col[k]; for (int r=0;r<2;++r) for (int c=0;c<2;++c) b(r,c)=var("a_"+std::to_string(i)+"_"+std::to_string(j)+"_"+std::to_string(r)+std::to_string(c), i==j ? (r==c ? 5.0+i+0.5*r : 0.75-0.5*c) : (r==c ? -1.0-0.25*j : 0.5*(r-c)*(1+i))); A.val.push_back(b); }
+    auto Am=hx::to_amgcl(A); be::numa_vector<V2> F(n,false), X(n,false); for (int i=0;i<n;++i) { V2 v; v(0)=var("f"+std::to_string(2*i),1.0+i); v(1)=var("f"+std::to_string(2*i+1),0.5-i); F[i]=v; X[i]=amgcl::math::zero<V2>(); }
+    try { rx::ilu0<BB>::params prm; prm.solve.serial=true; rx::ilu0<BB> R(*Am,prm,BB::params()); R.apply(*Am,F,X); } catch (const std::runtime_error&) { hx::count("zero-pivot exception paths (breakdown, outside the claim)"); return; }
+    std::vector<scalar> l, r; for (int i=0;i<n;++i) { V2 s=amgcl::math::zero<V2>(); for (ptrdiff_t k=p.ptr[i];k<p.ptr[i+1];++k) s+=A.val[k]*X[p.col[k]]; for (int q=0;q<2;++q) { l.push_back(s(q)); r.push_back(F[i](q)); } } hx::prove_eq_vec("ilu0 with non-commuting 2x2 blocks on a block tridiagonal matrix is the exact inverse: A * apply(f) = f", l, r); },co); }
+
 int main(int argc, char **argv) {
     hx::parse_args(argc,argv); bool T=hx::thorough(); hx::Rng rng(hx::args().seed);
     hx::encodes("relaxation::damped_jacobi / spai0 / gauss_seidel(serial_sweep) / spai1 / chebyshev::solve : constructors, apply_pre, apply_post, apply");
@@ -107,6 +114,7 @@ int main(int argc, char **argv) {
     std::vector<Pattern> big{hx::band_pattern(4,1),hx::band_pattern(5,1),hx::arrow_pattern(4),hx::grid_pattern(2,2),hx::band_pattern(4,2)}; if (T) { big.push_back(hx::dense_pattern(4,4)); big.push_back(hx::arrow_pattern(5)); big.push_back(hx::grid_pattern(3,2)); for (int k=0;k<10;++k) big.push_back(hx::random_pattern(4,4,rng,2,true)); }
     for (auto &p : pats) { jacobi_case(p); spai0_case(p); gs_case(p); ilu0_case(p,false); if (p.n==3 || T) { ilu0_case(p,true); iluk_case(p,1); ilup_case(p,1); } if (p.n<=2 || T || rng.below(8)==0) ilut_case(p); if (p.n==3 && (T || rng.below(4)==0)) { iluk_case(p,2); iluk_case(p,3); } asprec_case(p); }
     for (auto &p : big) { jacobi_case(p); spai0_case(p); gs_case(p); ilu0_case(p,false); ilu0_case(p,true); iluk_case(p,1); iluk_case(p,p.n); ilup_case(p,1); if (T) ilup_case(p,2); }
+    ilu0_block_case(2);
     for (int k=0;k<(T?12:4);++k) { Pattern p = k%2 ? hx::grid_pattern(2+k%3,2) : hx::random_sym_pattern(3+rng.below(4),rng,2); for (int deg=1;deg<=(T?5:3);++deg) { cheb_case(p,rng,deg,false); cheb_case(p,rng,deg,true); } }
     // SPAI-1: rows with at most two stored entries (the QR of wider rows leaves nested radicals z3 does not resolve within the budget)
     for (int n=2;n<=(T?5:4);++n) { Pattern ub; ub.n=ub.m=n; ub.ptr.push_back(0); for (int i=0;i<n;++i) { ub.col.push_back(i); if (i+1<n) ub.col.push_back(i+1); ub.ptr.push_back(ub.col.size()); } ub.name="upperbidiag"+std::to_string(n); spai1_case(ub,rng,true);
